@@ -44,7 +44,7 @@ def handleC12 (j : J) : J :=
     -- PARSED tree builds what the printer's own document builds
     let ρ := SdlText.reprOfTable ((j.arrD "reprs").filterMap fun e => match e with | .arr [.str v, .str r] => some (v, r) | _ => none)
     let canon := SdlText.litsCanonWF ρ (SdlText.printOrder s)
-    let preimage := match SdlText.parseSdlTextT t with
+    let preimage := if !(j.boolD "wantPre" && SdlText.printTextWF o s) then true else match SdlText.parseSdlTextT t with
       | some d => (match build (SdlText.astToDoc ρ d), build (SdlText.printedDoc s) with
           | .ok a, .ok b => a == b
           | .error _, .error _ => true
@@ -54,12 +54,12 @@ def handleC12 (j : J) : J :=
     -- the schema WITHOUT its descriptions, whenever that schema satisfies `printTextWF` (descriptions on)
     let s0 := SdlText.stripSchema s
     let wfStrip := SdlText.printTextWF { o with descriptions := true } s0
-    let parsesStrip := match SdlText.parseSdlTextT t, SdlText.docToAst (SdlText.printedDoc s0) with
+    let parsesStrip := if o.descriptions then true else match SdlText.parseSdlTextT t, SdlText.docToAst (SdlText.printedDoc s0) with
       | some a, some b => a.toJson.render == b.toJson.render
       | _, _ => false
     .obj [("text", .str (stringOfText t)), ("same", .bool (stringOfText t == first)),
           ("wf", .bool (SdlText.printTextWF o s)), ("parses", .bool parses), ("canon", .bool canon), ("preimage", .bool preimage),
-          ("wfStrip", .bool wfStrip), ("parsesStrip", .bool (o.descriptions || parsesStrip))]
+          ("wfStrip", .bool wfStrip), ("parsesStrip", .bool parsesStrip), ("preEvaluated", .bool (j.boolD "wantPre"))]
   | "printTA" =>
     -- the total Text model WITH applied schema directives (`include_custom_schema_directives` truthy / whitelist), the first
     -- model on the same input, `printTextWFA`, and the statement `parse(printSchemaTA s apps) = tree of printedDocA` evaluated
